@@ -226,3 +226,10 @@ pub fn history_at(ctor: Sx, ops: Vec<Sx>, marks: &[usize]) -> Sx {
 pub fn wants_long_runs(tier: &str, emit: &crate::Emit) -> bool {
     tier == "thorough" || emit.prop() == 1 || emit.prop() == 2
 }
+
+/// the 65 540-entry histories of the thorough tier are for the properties whose oracles are linear in the history: the walk /
+/// handle judgements of C03 and C05 re-walk the image for every pending handle (quadratic: more than an hour for one such case)
+pub fn long_runs_affordable(emit: &crate::Emit) -> bool {
+    // (C14 pushes every image byte by byte into a generic table that re-sums itself at each byte: quadratic as well)
+    emit.prop() != 3 && emit.prop() != 5 && emit.prop() != 14
+}
